@@ -248,6 +248,20 @@ impl StateCheck for C18 {
                     if na.len() != nb.len() || na.iter().zip(&nb).any(|(x, y)| (x - y).abs() > t) {
                         out.viol("cli_saved_files_give_same_results", &[], cfg, format!("second run: {b}"), format!("first run: {a}"));
                     }
+                    // emissions and renewable ratios too
+                    for (lab, tol) in [("E_CO2 [kg_CO2e/m2.an]:", t), ("RER = ", 0.021), ("RER_nrb = ", 0.021)] {
+                        let v1 = o1.stdout.lines().find(|l| l.starts_with(lab)).map(|l| nums(&l[lab.len()..]));
+                        let v2 = o2.stdout.lines().find(|l| l.starts_with(lab)).map(|l| nums(&l[lab.len()..]));
+                        let ok = match (&v1, &v2) {
+                            (Some(x), Some(y)) => x.len() == y.len() && x.iter().zip(y).all(|(p, q)| (p - q).abs() <= tol),
+                            _ => false,
+                        };
+                        // ratios of totals that are rounding noise are not comparable
+                        let noise = lab.starts_with("RER") && na.iter().chain(nb.iter()).all(|x| x.abs() <= 2.0 * t);
+                        if !ok && !noise {
+                            out.viol("cli_saved_files_give_same_results", &[], cfg, format!("{lab} second run {v2:?}"), format!("first run {v1:?}"));
+                        }
+                    }
                     for lab in ["Área de referencia", "Factor de exportación"] {
                         let v1 = o1.stdout.lines().find(|l| l.starts_with(lab)).map(|l| nums(l.split(':').nth(1).unwrap_or("")));
                         let v2 = o2.stdout.lines().find(|l| l.starts_with(lab)).map(|l| nums(l.split(':').nth(1).unwrap_or("")));
@@ -285,6 +299,8 @@ fn extra_letters() -> Vec<Letter> {
         // demands that do not sum to a positive number: nothing demanded, cooling written with negative sign
         Letter::one(d("REF", &[0, 0])),
         Letter::one(d("REF", &[-200, -650])),
+        // an annual demand (one value) beside components with two steps: accepted when read, so it must survive
+        Letter::one(d("ACS", &[1234])),
         Letter::one(d("CAL", &[0, 300])),
         Letter::one(u(Some(3), "CAL", "RED1", &[1000, 2050])),
         Letter::one(u(Some(3), "ACS", "RED2", &[500, 125])),
